@@ -2,6 +2,7 @@ package harness
 
 import (
 	"context"
+	"github.com/ipld/go-storethehash/store/types"
 	"errors"
 	"fmt"
 	"github.com/ipld/go-storethehash/store"
@@ -21,7 +22,11 @@ import (
 // ---- recorded concurrent history ----
 
 type callRec struct {
-	Thread   int
+	// LocAfter: where the index says the key lives right after an update
+	// returned (recorded only in ledger scenarios, by the updating thread).
+	LocAfter    types.Block
+	HasLocAfter bool
+	Thread      int
 	Op       Op
 	Key      string // key name
 	Call     int
@@ -283,6 +288,11 @@ func execStore(t *testing.T, sc *ConcScenario, choose chooser) *execResult {
 				s.clock++
 				r.Ret = s.clock
 				r.Returned = true
+				if w.ledger != nil && op.Kind == OpPut && r.Err == "" {
+					if blk, found, err := w.idx().Get(w.Keys[op.K].Digest); err == nil && found {
+						r.LocAfter, r.HasLocAfter = blk, true
+					}
+				}
 			}
 		})
 	}
@@ -1310,21 +1320,36 @@ func ledgerConcFinal(w *World, s *Sched, recs []callRec, res *execResult) {
 	if res.viol != nil || w.ledger == nil {
 		return
 	}
+	// every key is updated by one thread only; its calls are in program
+	// order in recs, so the location an update supersedes is the one the
+	// previous update of that key produced (or the initial one)
+	curLoc := map[string]types.Block{}
+	hasLoc := map[string]bool{}
+	for d, b := range w.initLocs {
+		curLoc[d], hasLoc[d] = b, true
+	}
 	for _, r := range recs {
 		if !r.Returned || r.Err != "" {
 			continue
 		}
 		k := w.keyByName(r.Key)
-		old, had := w.initLocs[string(k.Digest)]
+		d := string(k.Digest)
 		switch r.Op.Kind {
 		case OpPut:
-			if had {
-				w.ledger.superseded(old, "overwrite of "+r.Key)
+			if hasLoc[d] {
+				w.ledger.superseded(curLoc[d], "overwrite of "+r.Key)
+			}
+			if r.HasLocAfter {
+				curLoc[d], hasLoc[d] = r.LocAfter, true
+				w.ledger.markCurrent(r.LocAfter)
+			} else {
+				hasLoc[d] = false
 			}
 		case OpRemove:
-			if had && r.Removed {
-				w.ledger.superseded(old, "remove of "+r.Key)
+			if hasLoc[d] && r.Removed {
+				w.ledger.superseded(curLoc[d], "remove of "+r.Key)
 			}
+			hasLoc[d] = false
 		}
 	}
 	// the model is what the quiescent store holds (only used for "is this
@@ -1372,6 +1397,10 @@ func c13ConcScenarios(tier string) []*ConcScenario {
 		{{P(0, 2), opF}, gc},
 		{{R(4)}, {P(0, 2)}, {opF}},
 		{{R(4), opF}, {P(0, 2)}, gc},
+		// two overwrites of one key around a flush: the freelist can name a
+		// record that is still in the primary's write pool
+		{{P(0, 2), P(0, 3)}, {opF}},
+		{{P(0, 2), P(0, 3)}, {opF}, gc},
 	}
 	bound := 2
 	cfgs := []Config{cfg("mh", false, 8, 48, 48)}
